@@ -88,11 +88,13 @@ pub struct StreamSpec {
     pub cancel: Cancel,
     /// the server handler waits for the stream to be reset (poll_reset) instead of responding
     pub s_wait_reset: bool,
+    /// the client task yields this many times before asking for readiness (a request that starts late)
+    pub c_start_delay: usize,
 }
 
 impl StreamSpec {
     pub fn new(req: MsgSpec, resp: MsgSpec) -> StreamSpec {
-        StreamSpec { req, resp, push: None, c_recv: RecvMode::Immediate, s_recv: RecvMode::Immediate, cancel: Cancel::None, s_wait_reset: false }
+        StreamSpec { req, resp, push: None, c_recv: RecvMode::Immediate, s_recv: RecvMode::Immediate, cancel: Cancel::None, s_wait_reset: false, c_start_delay: 0 }
     }
 }
 
@@ -467,6 +469,9 @@ pub fn err_text(e: &h2::Error) -> String {
 
 async fn client_stream(k: usize, spec: StreamSpec, mut sr: client::SendRequest<Bytes>, log: Log, spawner: Spawner) {
     let side = Side::Client;
+    for _ in 0..spec.c_start_delay {
+        yield_now().await;
+    }
     if let Err(e) = poll_fn(|cx| sr.poll_ready(cx)).await {
         log.push(side, k, Dir::Req, true, Ev::Err(format!("poll_ready: {}", err_text(&e))));
         return;
